@@ -310,3 +310,50 @@ def helper_key_stores(fn, helpers: Dict[str, KeyStoreHelper]) -> Dict[str, List[
             if encl is fn and var is not None:
                 out.setdefault(var, []).append((None, h, c))
     return out
+
+
+# ---------------------------------------------------------------------- propositional reading of guards
+def _leaves(e, out: List[str]):
+    """Collect the canonical leaf texts of a boolean expression (`not`, and/or stripped; `is not`/`!=`/`not in` -> positive form)."""
+    if isinstance(e, ast.UnaryOp) and isinstance(e.op, ast.Not):
+        return _leaves(e.operand, out)
+    if isinstance(e, ast.BoolOp):
+        for v in e.values:
+            _leaves(v, out)
+        return
+    a, pol = test_atoms(e, True)[0]
+    if a not in out:
+        out.append(a)
+
+
+def _eval_prop(e, env: Dict[str, bool]) -> bool:
+    if isinstance(e, ast.UnaryOp) and isinstance(e.op, ast.Not):
+        return not _eval_prop(e.operand, env)
+    if isinstance(e, ast.BoolOp):
+        vals = [_eval_prop(v, env) for v in e.values]
+        return all(vals) if isinstance(e.op, ast.And) else any(vals)
+    if isinstance(e, ast.Constant):
+        return bool(e.value)
+    a, pol = test_atoms(e, True)[0]
+    return env[a] if pol else not env[a]
+
+
+def guards_imply(guards: Iterable[Tuple[ast.expr, bool]], goal: Callable[[Dict[str, bool]], bool], axioms: Callable[[Dict[str, bool]], bool] = None,
+                 extra_leaves: Iterable[str] = (), max_leaves=10) -> Optional[bool]:
+    """Do the branch outcomes `guards` (read as propositional formulas over their leaf conditions) imply goal(assignment)?
+    `axioms(assignment)` restricts the assignments considered (known equivalences between leaves).  None when there are
+    too many leaves to enumerate."""
+    import itertools
+    guards = list(guards)
+    leaves: List[str] = list(extra_leaves)
+    for t, pol in guards:
+        _leaves(t, leaves)
+    if len(leaves) > max_leaves:
+        return None
+    for vals in itertools.product([False, True], repeat=len(leaves)):
+        env = dict(zip(leaves, vals))
+        if axioms is not None and not axioms(env):
+            continue
+        if all(_eval_prop(t, env) == pol for t, pol in guards) and not goal(env):
+            return False
+    return True
